@@ -3,3 +3,4 @@ import Generated.Sites
 import Generated.Builtins
 import Generated.SoapFlow
 import Generated.Constants
+import Generated.MemoSites
